@@ -63,9 +63,22 @@ func ZZ_C05_binary_numeric() {
 // ZZ_C05_binary_host_kinds: the same table with at least one operand of a
 // host-only numeric kind (int, int32, int16, int8, float32).
 func ZZ_C05_binary_host_kinds() {
-	cx, cy := zz.Choose(len(zzArithClasses)), zz.Choose(len(zzArithClasses))
+	// (quick tier: every class but uint64, whose 64-bit unsigned products and
+	// float conversions are the slowest queries of the table)
+	n := len(zzArithClasses) - 1
+	cx, cy := zz.Choose(n), zz.Choose(n)
 	if cx < 2 && cy < 2 {
 		return
+	}
+	zzC05Binary(cx, cy)
+}
+
+// ZZ_C05_binary_host_kinds_u64 (thorough tier): the pairs with a uint64 operand.
+func ZZ_C05_binary_host_kinds_u64() {
+	u := len(zzArithClasses) - 1
+	cx, cy := u, zz.Choose(len(zzArithClasses))
+	if zz.Choose(2) == 1 {
+		cx, cy = cy, cx
 	}
 	zzC05Binary(cx, cy)
 }
